@@ -3,6 +3,7 @@
 use crate::{
     compile::{Compile, CompileState},
     context::compile_context,
+    rename::rename_shadowing_binders,
     types::compile_ty,
 };
 use core_lang::syntax::{CodataDeclaration, names::Identifier};
@@ -29,6 +30,9 @@ pub fn compile_def(
     codata_types: &'_ [CodataDeclaration],
     used_labels: &mut HashSet<Name>,
 ) -> VecDeque<core_lang::syntax::Def> {
+    let mut def = def;
+    // continuations are placed under binders, so binders must not shadow names in scope
+    def.body = rename_shadowing_binders(def.body, &def.context);
     let mut used_vars = def.context.vars();
 
     let mut context = compile_context(def.context);
@@ -90,6 +94,9 @@ pub fn compile_main(
     codata_types: &'_ [CodataDeclaration],
     used_labels: &mut HashSet<Name>,
 ) -> VecDeque<core_lang::syntax::Def> {
+    let mut def = def;
+    // continuations are placed under binders, so binders must not shadow names in scope
+    def.body = rename_shadowing_binders(def.body, &def.context);
     let mut used_vars = def.context.vars();
     let context = compile_context(def.context);
 
